@@ -18,6 +18,7 @@ from ref import connect_contract as contract
 from sim import peer as simpeer
 
 PROP = 'C18'
+RF_FAULTS = ('TransmissionError', 'TimeoutError')
 
 T2_MEM = bytes.fromhex(
     "04a1b29f" "c3d4e5f6" "00480000" "e1100600" "0300fe00" + "00000000" * 11)
@@ -41,12 +42,24 @@ class Dev(object):
             return                       # notes of the harness, not calls
         self.calls = getattr(self, 'calls', 0) + 1
         fault = self.env.get('fault')
+        if fault and fault[1] in RF_FAULTS:
+            # communication errors come from the data exchange calls only:
+            # the n-th of those fails
+            if name not in ('send_cmd_recv_rsp', 'send_rsp_recv_cmd'):
+                return
+            self.rf_calls = getattr(self, 'rf_calls', 0) + 1
+            if self.rf_calls != fault[0]:
+                return
+            self.fault_hit = name
+            import nfc.clf
+            raise getattr(nfc.clf, fault[1])("injected " + fault[1])
         if fault and self.calls == fault[0]:
             # part 'faults': the n-th driver call fails on the host link /
             # the user hits Ctrl-C while the driver is busy
             self.fault_hit = name
             if fault[1] == 'KeyboardInterrupt':
                 raise KeyboardInterrupt()
+
             import errno
             raise IOError(getattr(errno, fault[1]), "host link: " + fault[1])
 
@@ -474,7 +487,18 @@ def connect_case(case):
     if 'ret' not in out:
         return [('connect|no-return|%s' % s.verdict,
                  dict(stuck=s.stuck()))], 'stuck'
-    if case.get('fault'):
+    if case.get('fault') and case['fault'][1] in RF_FAULTS:
+        # a communication error is an ordinary event of the environment (the
+        # other side was disturbed once): the whole contract applies, and
+        # connect() returns instead of raising
+        if out['ret'][0] == 'exc':
+            return [('rf-fault|%s|%s|raises|%s' % (
+                case['fault'][1], getattr(dev, 'fault_hit', None),
+                sig_exc(out['ret'][1])),
+                dict(fault=case['fault'],
+                     driver_call=getattr(dev, 'fault_hit', None),
+                     error=repr(out['ret'][1])))], ('rf-fault', 'raises')
+    elif case.get('fault'):
         # documented: connect() returns False when terminated by IOError or
         # KeyboardInterrupt (whatever phase the activation was in)
         hit = getattr(dev, 'fault_hit', None)
@@ -683,7 +707,8 @@ def race_work(cfg):
     return run.export()
 
 
-FAULT_KINDS = ('EIO', 'ENODEV', 'KeyboardInterrupt')
+FAULT_KINDS = ('EIO', 'ENODEV', 'KeyboardInterrupt', 'TransmissionError',
+               'TimeoutError')
 
 
 def fault_cases(tier):
@@ -783,7 +808,9 @@ def main(tier='quick', seed=0, part=None):
         "spells a documented default out (option kind x environment x "
         "terminate time); faults: for default callbacks (and on-connect false) the n-th "
         "driver call of the history raises IOError(EIO/ENODEV) or "
-        "KeyboardInterrupt, every n and kind - connect() must return False; "
+        "KeyboardInterrupt, every n and kind - connect() must return False - or "
+        "a TransmissionError / TimeoutError (the contract applies as for any "
+        "environment, connect() does not raise); "
         "each history judged by the reference automaton "
         "ref/connect_contract.py; distinct = distinct case" % len(KINDS))
     run.assumptions += [
